@@ -1117,7 +1117,9 @@ class SQLObject(with_metaclass(declarative.DeclarativeMeta, object)):
             self, [(self.sqlmeta.columns[name].dbName,
                     dbValue)])
 
-        if self.sqlmeta.cacheValues:
+        if self.sqlmeta.cacheValues and not self.sqlmeta.expired:
+            # an expired instance reloads the whole row on the next read;
+            # caching one attribute here would survive a later expire()
             setattr(self, instanceName(name), value)
 
         post_funcs = []
@@ -1230,7 +1232,8 @@ class SQLObject(with_metaclass(declarative.DeclarativeMeta, object)):
                         for name, value in toUpdate]
                 self._connection._SO_update(self, args)
             # cache only once every value is validated and the row is written
-            if self.sqlmeta.cacheValues:
+            # (an expired instance reloads the whole row on the next read)
+            if self.sqlmeta.cacheValues and not self.sqlmeta.expired:
                 for name, value in toCache.items():
                     setattr(self, instanceName(name), value)
         finally:
